@@ -82,6 +82,10 @@ impl BarState {
 
         if let Reset::Elapsed | Reset::All = mode {
             self.state.started = now;
+            self.state.started_pos = match mode {
+                Reset::All => 0,
+                _ => self.state.pos.pos.load(Ordering::Relaxed),
+            };
         }
 
         if let Reset::All = mode {
@@ -261,6 +265,8 @@ pub struct ProgressState {
     len: Option<u64>,
     pub(crate) tick: u64,
     pub(crate) started: Instant,
+    /// The position the bar was at when `started` was (re)set: not progress made since then
+    pub(crate) started_pos: u64,
     status: Status,
     est: Estimator,
     pub(crate) message: TabExpandedString,
@@ -276,6 +282,7 @@ impl ProgressState {
             tick: 0,
             status: Status::InProgress,
             started: now,
+            started_pos: 0,
             est: Estimator::new(now),
             message: TabExpandedString::NoTabs("".into()),
             prefix: TabExpandedString::NoTabs("".into()),
@@ -340,7 +347,9 @@ impl ProgressState {
         if let Status::InProgress = self.status {
             self.est.steps_per_second(Instant::now())
         } else {
-            self.pos() as f64 / self.started.elapsed().as_secs_f64()
+            // the average since the bar was started: a position it started out at does not count
+            self.pos().saturating_sub(self.started_pos) as f64
+                / self.started.elapsed().as_secs_f64()
         }
     }
 
